@@ -270,6 +270,47 @@ func raceC17(seed int64, workers, rounds int) raceReport {
 				bad(fmt.Sprintf("after all registrations finished Named(%q) is not the last registration of any goroutine", n))
 			}
 		}
+		// the first registration of a name, by all goroutines at once from a common gate, many times over:
+		// afterwards the name is there, once, holding one of the values given, and everything is still sorted
+		for burst := 0; burst < 40; burst++ {
+			fresh := fmt.Sprintf("race-fresh-%d-%d-%d", seed, round, burst)
+			gate := make(chan struct{})
+			var wg2 sync.WaitGroup
+			vals := make([]decoration.Decoration, workers)
+			for g := 0; g < workers; g++ {
+				vals[g] = mk(fresh, g, burst)
+				wg2.Add(1)
+				go func(g int) {
+					defer wg2.Done()
+					<-gate
+					decoration.RegisterDecorationName(fresh, vals[g])
+					_ = decoration.Named(fresh)
+				}(g)
+			}
+			close(gate)
+			wg2.Wait()
+			l := decoration.RegisteredDecorationNames()
+			cnt := 0
+			for _, x := range l {
+				if x == fresh {
+					cnt++
+				}
+			}
+			if cnt != 1 {
+				bad(fmt.Sprintf("a name first registered by %d goroutines at once is listed %d times", workers, cnt))
+			}
+			if !sort.StringsAreSorted(l) {
+				bad("listing not sorted after concurrent first registrations")
+			}
+			d := decoration.Named(fresh)
+			okv := false
+			for _, v := range vals {
+				okv = okv || v == d
+			}
+			if !okv {
+				bad("after concurrent first registrations the name holds none of the values registered")
+			}
+		}
 	}
 	return rep
 }
